@@ -106,7 +106,7 @@ pub const T7_TEMPLATES: &[(&str, &str)] = &[
 
 pub const T7_FILLERS: &[&str] = &[
     "a", "''", "\"\"", "%'", "%\"", "%%", "%(", "%)", "%", "/", "&", "&&", "\n", "é", " ", "41",
-    ",", "+", "(", ")",
+    ",", "+", "(", ")", "C3", "A9", "e9",
 ];
 
 pub fn t7_spaces(tier: Tier) -> Vec<Space> {
